@@ -447,7 +447,27 @@ def check_identifiers(chk, mod, rxs):
                     f'(e.g. a function with a one-character name can be defined but a call of it is a syntax error)')
 
 
+def check_expressions_concrete(chk, rule='C02.C'):
+    """parse_expression evaluated (E6p) on concrete expression texts against the independent front-end"""
+    from .. import parsesim
+    n, problems = parsesim.run_expressions(chk.repo, chk.tier, rule)
+    mod = chk.repo.module('parser')
+    if problems:
+        by = {}
+        for k, msg in problems:
+            by.setdefault(k, []).append(msg)
+        for k, msgs in by.items():
+            chk.bad(rule, mod, 'parse_expression', f'{k}: {msgs[0][:110]}', f'evaluation of parse_expression on {n} expression texts: {msgs[0][:500]} ({len(msgs)} texts deviate this way)',
+                    node=mod.funcs.get('parse_expression'))
+        return False
+    chk.ok(rule, f'{n} expression texts (every chain of 1-2 operators, a third of the 3-operator and a sample of the 4-operator chains, prefix operator runs, number / string / bracket-variable '
+           f'literals incl. plus-signed numbers, calls, groups, blank variations, 25 ill-formed texts) parse to the tree the precedence and associativity rules dictate, or are rejected', count=n)
+    return True
+
+
 def run(chk):
+    chk.rule('C02.C', 'parse_expression evaluated on concrete expression texts = the tree of the independent front-end (sa/barefront.py); ill-formed texts rejected', floor=1000)
+    chk.guard('C02.C', check_expressions_concrete, chk)
     chk.rule('C02.I', 'identifier patterns agree between definitions, variable references and calls', floor=6)
     chk.rule('C02.T', 'precedence table = strictly-lower-rung sets (14 rows)', floor=14)
     chk.rule('C02.A', 'operator sets agree: tokeniser, table, schema, evaluator', floor=5)
